@@ -426,6 +426,7 @@ pub fn run_property(p: &dyn Property, opt: &Options) -> i32 {
     let mut seen_classes: Vec<(String, String)> = vec![];
     let mut known_seen: BTreeMap<String, u64> = BTreeMap::new();
     let mut violations = 0u64;
+    let mut not_reproducible = 0u64;
     let mut violation_lines: Vec<String> = vec![];
     let mut minimised_classes = 0;
     for (idx, sc, f) in agg.fails.iter() {
@@ -516,13 +517,19 @@ pub fn run_property(p: &dyn Property, opt: &Options) -> i32 {
         match fresh {
             Some(o) if o.status.code() == Some(1) => {}
             Some(o) => {
+                // does not fail when run on its own: it depended on what ran before it in this process. Not a
+                // finding that can be handed over as a replay file; the batch goes on (another scenario may show
+                // the same fault reproducibly) and ends as a harness error if nothing reproducible is found.
                 eprintln!(
-                    "HARNESS-ERROR replay {} did not reproduce in a fresh process (exit {:?})\n{}",
+                    "NOT-REPRODUCIBLE replay {} did not reproduce in a fresh process (exit {:?})\n{}",
                     path,
                     o.status.code(),
                     String::from_utf8_lossy(&o.stdout)
                 );
-                return 2;
+                let _ = std::fs::remove_file(&path);
+                not_reproducible += 1;
+                violations -= 1;
+                continue;
             }
             None => {
                 eprintln!("HARNESS-ERROR cannot spawn replay process");
@@ -630,6 +637,9 @@ pub fn run_property(p: &dyn Property, opt: &Options) -> i32 {
     );
     if violations > 0 {
         1
+    } else if not_reproducible > 0 {
+        eprintln!("HARNESS-ERROR {} failing scenario(s) did not reproduce in a fresh process and nothing else failed", not_reproducible);
+        2
     } else {
         0
     }
